@@ -30,10 +30,11 @@ structure Scen where
   daf : String := ""
   dabt : Nat := 0
   ttl : Nat := 0
+  sf : String := ""   -- store fault: "" | state | put | commit
 
 def parse (o : Op) : Option Scen :=
   let mode := o.str "mode"
-  let s : Scen := { agg := mode = "agg", future := o.nat "future", bt := o.nat "bt", span := o.nat "span", prod := o.nat "prod", xexec := o.nat "xexec", daf := o.str "daf", dabt := o.nat "dabt", ttl := o.nat "ttl" }
+  let s : Scen := { agg := mode = "agg", future := o.nat "future", bt := o.nat "bt", span := o.nat "span", prod := o.nat "prod", xexec := o.nat "xexec", daf := o.str "daf", dabt := o.nat "dabt", ttl := o.nat "ttl", sf := o.str "sf" }
   let slow := o.nat "slow"
   if mode ≠ "agg" ∧ mode ≠ "full" then none
   else if (s.daf ≠ "" ∧ s.daf ≠ "reject" ∧ s.daf ≠ "flaky" ∧ s.daf ≠ "error" ∧ s.daf ≠ "canceled" ∧ s.daf ≠ "outage") ∨ s.dabt > 60000 ∨ s.ttl > 1000 ∨ (s.daf ≠ "" ∧ mode ≠ "agg") then none
@@ -42,7 +43,23 @@ def parse (o : Op) : Option Scen :=
   else if s.xexec > 2000 ∨ (s.xexec > 0 ∧ mode ≠ "full") then none
   else if o.nat "xagg" > 1500 ∨ (o.nat "xagg" > 0 ∧ mode ≠ "agg") then none
   else if o.nat "maxp" > 100000 ∨ o.nat "outms" > 20000 ∨ (decide (o.nat "outms" > 0) != decide (s.daf = "outage")) then none
+  else if (s.sf ≠ "" ∧ s.sf ≠ "state" ∧ s.sf ≠ "put" ∧ s.sf ≠ "commit") ∨ o.nat "sfat" > 20000 ∨ o.nat "sfn" > 100 ∨ (s.sf = "" ∧ (o.nat "sfat" ≠ 0 ∨ o.nat "sfn" ≠ 0)) then none
   else some s
+
+/-- a failed write of the chain state (`store.UpdateState` inside `updateState`, under `lastStateMtx`) takes the worker that
+persists the state (AggregationLoop, code 0 / SyncLoop, code 8) down the error path of that critical section: if the
+regenerated table says that a lock of that worker is NOT free (its mutex is re-acquired inside one of its own critical
+sections, seed C13-H, or a section parks), that is where the stop request finds it - for ever.  On a table whose lock rows
+are all free this parks nobody. -/
+def parkStore (s : Scen) (progs : List (List BP)) (workers : List Nat) (code : Nat) : List (Nat × BP) :=
+  if s.sf = "state" then
+    match workers.idxOf? code with
+    | some i =>
+      match (progs.getD i []).find? (fun p => match p with | .lock _ false => true | _ => false) with
+      | some p => [(i, p)]
+      | none => []
+    | none => []
+  else []
 
 /-- where the stop request finds the workers that are not at a ctx select (parking at a point the table does not have
 is a no-op in `stopsPromptly`: the worker is then at its ctx select like the others) -/
@@ -72,9 +89,10 @@ def parkFull (s : Scen) : List (Nat × BP) :=
 /-- "1" prompt; "late" = returns only when the environment lets an unbounded sleep elapse; "hang" = never -/
 def verdict (s : Scen) : String :=
   if s.agg then
-    if stopsPromptly cfg aggProgs (parkOf s) [] then "1" else "late"
+    if !(stopsPromptly cfg aggProgs (parkStore s aggProgs Gen.C13.aggregatorWorkers 0) []) then "hang"
+    else if stopsPromptly cfg aggProgs (parkOf s) [] then "1" else "late"
   else if !(stopsPromptly cfg aggProgs [] []) then "late"
-  else if stopsPromptly cfg fullProgs (parkFull s) [] then "1" else "hang"
+  else if stopsPromptly cfg fullProgs (parkFull s ++ parkStore s fullProgs Gen.C13.fullWorkers 8) [] then "1" else "hang"
 
 def step (st : Unit) (line : String) : Unit × String :=
   let o := parseOp line
